@@ -220,6 +220,15 @@ func (g *Gen) fill(kind string, p *Program) Op {
 			// rune and/or can push back more than one rune
 			op.I[4] = int64(g.R.N(8))
 		}
+		if g.R.P(1, 4) {
+			// a peer whose tokens are windows of storage it overwrites on
+			// the next read
+			op.I[4] |= 8
+		}
+		if g.R.P(1, 4) {
+			// a peer that also has bufio's Peek and Discard, small buffer
+			op.I[4] |= 16 | int64(g.R.N(3))<<5
+		}
 	case "TextRT":
 		op.D = []string{d()}
 		op.I = []int64{int64(g.R.N(len(textProducers))), int64(g.R.N(len(textConsumers)))}
@@ -276,6 +285,9 @@ func (g *Gen) fill(kind string, p *Program) Op {
 				if g.R.P(1, 3) {
 					// one whole Write call refused, the others accepted
 					op.I[2], op.I[3] = 4, int64(g.R.Range(1, 3))
+				} else if g.R.P(1, 4) {
+					// Write formats a Decimal itself (re-entry)
+					op.I[2], op.I[3] = 5, 0
 				}
 			}
 		}
